@@ -331,7 +331,7 @@ fn check_tracking(tc: &TrackingCase, ctx: &mut CaseCtx) -> CaseResult {
 fn shape_strategy() -> impl Strategy<Value = Shape> {
     prop_oneof![
         6 => (1u16..=60).prop_map(|n| Shape::Generic { n }),
-        1 => (prop_oneof![1u32..=300, 32_000u32..=33_000, 32_500u32..=43_690], 0u8..=2).prop_map(|(n, extra)| Shape::Many { n, extra }),
+        2 => (prop_oneof![3 => 1u32..=300, 2 => 32_000u32..=33_000, 2 => 32_500u32..=43_690, 4 => prop::sample::select(vec![127u32, 128, 129, 0x7EFF, 0x7F00, 0x7F01, 0x7FFF, 0x8000, 0x8001])], 0u8..=2).prop_map(|(n, extra)| Shape::Many { n, extra }),
         2 => (1u16..=30).prop_map(|n| Shape::AllLlZero { n }),
         2 => (1u16..=30).prop_map(|n| Shape::AllMlThree { n }),
         2 => (1u8..=40).prop_map(|n| Shape::CodeEdges { n }),
@@ -657,6 +657,7 @@ pub fn check(case: &Case, ctx: &mut CaseCtx) -> CaseResult {
             }
             let n = s.seqs.len();
             ctx.feat_if(n >= 0x7F00, "parse:>=32512_sequences");
+            ctx.feat_if(matches!(n, 127 | 128 | 0x7EFF | 0x7F00 | 0x7F01), "parse:sequence_count_exactly_at_a_count_format_boundary");
             ctx.feat_if(n > 0 && s.seqs.iter().all(|q| q.ll == 0), "parse:all_ll_zero");
             ctx.feat_if(n > 0 && s.seqs.iter().all(|q| q.ml == 3), "parse:all_ml_three");
             ctx.feat_if(s.seqs.iter().any(|q| q.off as usize > BLK), "parse:offset>128K");
